@@ -58,7 +58,9 @@ Leaves == <<
   "IBadE", "IBadE.Low", "ICallE", "IBadT", "IBadI", "IRf", "import(\"./m\").BadE", "import(\"./m\").CallE", "import(\"./m\").BadT",
   "import(\"./m\").Rf", "ThEv[\"payload\"]", "FsEv[\"payload\"]", "(ThEv | FsEv)[\"payload\"]", "Fo", "Sem1",
   "MT", "MD", "ST", "AT", "ES", "ES.C", "SU", "typeof sa", "`${E0}${\"\"}`", "`a${\"\" | \"b\"}`", "[id: string, ...values: number[]]",
-  "[string, ...number[], boolean]", "3.14159", "1e21", "-0"
+  "[string, ...number[], boolean]", "3.14159", "1e21", "-0",
+  "import(\"./cyc1\").Own1", "import(\"./cyc1\").Nope", "import(\"./rc1\").RX", "import(\"./dd\").DY", "import(\"./dd\").default",
+  "typeof import(\"./cyc1\").nope"
 >>
 
 \* wrappers: <<prefix, suffix>> around the current expression X
